@@ -50,6 +50,7 @@ class Conjugate: # TODO: Subclass from Sampler once updated
     def _calc_m_for_Gaussians(self, b):
         """ Helper method to calculate m parameter for Gaussian-Gamma conjugate pair. """
         if isinstance(self.target.likelihood.distribution, (Gaussian, GMRF)):
-            return len(b)
+            # rank of the precision, as used by the logpdf (dim - 1 for periodic/neumann GMRFs)
+            return self.target.likelihood.distribution(np.array([1])).rank
         elif isinstance(self.target.likelihood.distribution, (RegularizedGaussian, RegularizedGMRF)):
             return np.count_nonzero(b) # See 
